@@ -70,7 +70,7 @@ def tlc_stats(path):
     err = None
     with open(path, errors="replace") as f:
         for line in f:
-            if line.startswith('"EDGE') or line.startswith('"STEP'):
+            if line.startswith('"EDGE') or line.startswith('"STEP') or line.startswith('"CODEC'):
                 continue
             m = re.match(r"(\d+) states generated, (\d+) distinct states found", line)
             if m:
@@ -245,7 +245,7 @@ def run_job(job, prop, tier, seed, scratch, ev):
             ev["states"] += gen
             ev["transitions"] += gen
             rec.update(states=gen, walks=num * procs, depth=depth)
-        prefix = "EDGE" if mode == "edge" else "STEP"
+        prefix = job.get("prefix", "EDGE" if mode == "edge" else "STEP")
         shards = []
         total_lines = kept = 0
         for o in outs:
@@ -491,7 +491,7 @@ def main():
             states=ev["states"], transitions=ev["transitions"],
             traces_validated_against_impl=ev["completed"] + ev["traces_validated"],
             evaluations=total_beh, distinct_nontrivial=ev["distinct_behaviours"] + ev.get("go_distinct", 0),
-            rule="behaviours are generated by TLC from the specification (every transition of the exhaustive graphs with one path to its "
+            rule=plan.rule(prop) or "behaviours are generated by TLC from the specification (every transition of the exhaustive graphs with one path to its "
                  "source state, and seeded simulated walks) or by seeded drivers whose traces TLC validates; a behaviour is counted as "
                  "distinct by the hash of its action sequence; behaviours with fewer than two actions are not counted",
             samples=ev["samples"][:3] or [{"note": "model check only in this run"}],
